@@ -446,6 +446,21 @@ func (vc *VC) run() {
 			env.names[n] = Bound{r, rt}
 		}
 	}
+	var extraEvals []NamedTerm
+	for _, ev := range con.Evals {
+		func() {
+			defer func() {
+				if r := recover(); r != nil {
+					if _, ok := r.(specErr); ok {
+						return
+					}
+					panic(r)
+				}
+			}()
+			t, _ := vc.specExpr(env, ev.Expr)
+			extraEvals = append(extraEvals, NamedTerm{ev.Name, t})
+		}()
+	}
 	for i, e := range con.Ensures {
 		g := vc.specBool(env, e)
 		lbl := e.Label
@@ -457,6 +472,7 @@ func (vc *VC) run() {
 			for _, p := range fn.Params {
 				o.Evals = append(o.Evals, NamedTerm{p.Name(), fr.vals[p]})
 			}
+			o.Evals = append(o.Evals, extraEvals...)
 		}
 	}
 	if con.HasAssigns {
